@@ -37,6 +37,19 @@ def snapshot(scratch):
     r = subprocess.run(['rsync', '-a', '--delete', '--exclude', '/target', '--exclude', '/.git', REPO + '/', dst + '/'], capture_output=True, text=True)
     if r.returncode != 0:
         raise Undecided('snapshot failed: ' + r.stderr)
+    # Every source file of the snapshot gets the current time: cargo decides freshness by mtime, and a tree whose files carry OLD mtimes
+    # (restored from an archive, copied with preserved times) must never be served from artefacts that a previous run built from different
+    # text at the same path.  (Found in a development helper: a proc-macro crate built from a seeded change was reused for the unchanged tree.)
+    now = time.time()
+    for root, dirs, files in os.walk(dst):
+        if '/target' in root:
+            continue
+        for f in files:
+            if f.endswith(('.rs', '.toml', '.lock')):
+                try:
+                    os.utime(os.path.join(root, f), (now, now))
+                except OSError:
+                    pass
     return dst
 
 
